@@ -33,8 +33,7 @@ def run(ctx):
                        "with projected disk state, cache file, session cache keys, handle ids and result compared with the model and the C03 post-conditions "
                        "(check() passes, directory name = hash of state point file, len/iteration/membership agree, strays ignored, no litter) judged on the real tree; "
                        "distinct = (configuration, operation, outcome) classes of edges / simulated behaviours by (length, last op)")
-    for c in configs(ctx):
-        F.run_config(ctx, PID, c)
+    F.run_configs(ctx, PID, configs(ctx))
     F.run_recorded(ctx, PID, "random-wide", 60 if ctx.quick else 3000, 40 if ctx.quick else 60, F.NONDAMAGE + F.SPEDITS + ["move", "clone", "stray"])
     ctx.cov["binding_selftest"] = F.selftest(ctx, PID)
 
